@@ -4,7 +4,7 @@ usage: tools_seeds.py [--inplace] [seed-id ...]   (default: all under /verif/see
 Default mode works on a scratch worktree of /repo (VERIF_REPO) so that /repo and the registered evidence are untouched;
 --inplace applies each patch to /repo itself (git apply / git checkout -- .) as the brief describes."""
 import json, os, shutil, subprocess, sys
-V = "/verif"
+V = os.path.dirname(os.path.abspath(__file__))     # a snapshot of /verif (rsync, .cache linked) runs its own copy of the rules
 args = [a for a in sys.argv[1:] if not a.startswith("--")]
 inplace = "--inplace" in sys.argv
 # --lane=K/N : process every N-th seed starting with the K-th, in an own scratch worktree and cargo target directory (several lanes run side by side);
